@@ -123,3 +123,26 @@ Definition well_nested (F : forest) : Prop :=
 (* the same forest with the nodes of every graph listed in another order (Go: another iteration
    order of the graph's nodes map) *)
 Definition forest_perm (F F' : forest) : Prop := Forall2 (@Permutation node) F F'.
+
+(* ---- how often a handler is applied at a node ------------------------------------------- *)
+(* how often the handlers of option [o] are put into the callback manager of the node at path
+   [p] because of o's designated paths: once if some path designates the first node of p at the
+   top level (one Option is taken once per node there, however many of its paths name the node),
+   and once per path of length >= 2 that is p or a prefix of p (every such path travels down as
+   an Option of its own) *)
+Definition dmult (o : copt) (p : path) : nat :=
+  match p with
+  | [] => O
+  | k :: _ => ((if designates_key k (o_paths o) then 1 else 0) +
+               List.length (filter (fun q => (2 <=? List.length q)%nat && prefixb q p) (o_paths o)))%nat
+  end.
+(* ... and altogether: an undesignated option's handlers are in every manager once *)
+Definition fired_mult (o : copt) (p : path) : nat :=
+  ((match o_paths o with [] => 1 | _ :: _ => 0 end) + dmult o p)%nat.
+
+
+
+Definition cnt (h : N) (l : list N) : nat := count_occ N.eq_dec l h.
+(* the number of times handler [h] is in the callback manager of the node at path [p] *)
+Definition spec_fired_count (opts : list copt) (p : path) (h : N) : nat :=
+  list_sum (map (fun o => (cnt h (o_handlers o) * fired_mult o p)%nat) opts).
